@@ -243,6 +243,10 @@ func ruleFieldWriterCensus(rule string) func(p *Prog, r *Result) {
 					if a == name {
 						ok = true
 					}
+					// a private helper of an expected writer (reached only through it)
+					if !ok && p.HasFunc(a) && p.OnlyThrough(w.Fn, p.Func(a)) {
+						ok = true
+					}
 				}
 				short := field[strings.LastIndex(field, "/")+1:]
 				if !ok {
@@ -267,11 +271,15 @@ func ruleFieldWriterCensus(rule string) func(p *Prog, r *Result) {
 					r.OK(rule, fmt.Sprintf("%s / writes %s", name, short), p.InstrPos(w.Instr), "expected writer")
 				}
 			}
+			// (an expected writer that no longer stores the field itself — because it builds the value in a literal, or
+			// delegates to a helper — is fine: the table bounds who may write, it does not oblige anyone to)
+			nw := 0
 			for _, a := range allowed {
-				if !seen[a] {
-					r.Undecided(rule, fmt.Sprintf("%s / writes %s", a, field), "", "expected writer not found (function renamed or write removed); update the writer table")
+				if seen[a] {
+					nw++
 				}
 			}
+			r.Count("expected_field_writers_seen", nw)
 		}
 		// no sort / reslice of Parser.docs: calls receiving p.docs that mutate it
 		own := p.Own()
